@@ -265,10 +265,26 @@ class C07(Property):
                 cs.append({"scripts": self._mk_scripts(sc2), "sched": sch, "logonly": True})
         return cs
 
+    def _leftover_cases(self):
+        """What an EARLIER call that has long returned left behind must not reach the callers of a later flight: thread 0
+        completes a call alone (on another key / the same key; value / error), then leads a flight whose function panics,
+        exits its goroutine or fails while two callers wait in it (a recycled call object that is not cleared - seeded
+        C07-8 - shows the earlier result to exactly these waiters: nothing is assigned on the panic path)."""
+        cs = []
+        for kind in (0, 3, 4, 5):
+            c, g = (3, 2) if kind == 4 else (2, 1)
+            for k0, e0 in ((2, 0), (1, 0), (2, 5)):
+                for e1 in (PANIC, GOEXIT, 2):
+                    if kind == 5 and (k0, e0) == (1, 0):
+                        continue      # (cache node: a cached value of the same key answers the second call)
+                    cs.append({"scripts": self._mk_scripts([[(kind, k0, e0), (kind, 1, e1)], [(kind, 1, 0)], [(kind, 1, 0)]]),
+                               "sched": [0] * c + [0] * g + [1] * g + [2] * g + [0]})
+        return cs
+
     def corpus(self):
         wake, many = self._wake_order_cases(), self._many_keys_cases()
         # (the big many-keys terms are spread over the first shards of the Coq evaluation)
-        cs = many[:1] + wake[:64] + many[1:4] + wake[64:] + many[4:] + self._invalidation_cases()
+        cs = many[:1] + wake[:64] + many[1:4] + wake[64:] + many[4:] + self._invalidation_cases() + self._leftover_cases()
         # leader, joiner, late caller after completion (must start a new execution)
         cs.append({"scripts": self._mk_scripts([[(0, 1, 0)], [(0, 1, 0)], [(0, 1, 0)]]), "sched": [0, 1, 0, 2, 2]})
         # same thread calls twice: the second call must not see the first result
